@@ -5,6 +5,11 @@
    script for the real collector: external events with the callback of the run loop at which they
    happened, and the scripted failures. *)
 EXTENDS CollectorMC, Json
+\* simulation only (cfg: EnvGate <- SimEnvGate ...): TLC's simulator picks uniformly among the enabled
+\* actions, which would spend all external events before the run loop has got anywhere
+SimEnvGate     == RandomElement(1..(IF pc = "select" THEN 4 ELSE 25)) = 1
+SimFailGate    == RandomElement(1..25) = 1
+SimTimeoutGate == nenv = MaxEnv \/ RandomElement(1..6) = 1
 BrokenNow == {x[1] : x \in {y \in { <<"StateOrder", StateOrder(o)>>, <<"EndsClosed", EndsClosed(o)>>,
                                         <<"ServiceShutdownOnce", ServiceShutdownOnce(o)>>,
                                         <<"ProvidersShutdownOnce", ProvidersShutdownOnce(o)>>,
